@@ -67,7 +67,10 @@ func (search *Search) StartIterativeDeepening(startTime, endTime time.Time, maxD
 		bestLine, startTime, endTime)
 	copyBestLine(bestLine, search.bestLineAtDepth[0])
 
-	if !time.Now().After(endTime) && !search.interrupted && !oneLegalMove {
+	// no legal move at the root (mate or stalemate) leaves the line empty - deeper iterations cannot change that
+	rootIsTerminal := len(bestLine.moves) == 0
+
+	if !time.Now().After(endTime) && !search.interrupted && !oneLegalMove && !rootIsTerminal {
 		for currDepth := 2; currDepth <= maxDepth; currDepth++ {
 			var scoreAtDepth int
 			scoreAtDepth, oneLegalMove = search.startAlphaBeta(posGen, currDepth, &search.bestLineAtDepth[0],
@@ -96,6 +99,11 @@ func (search *Search) StartIterativeDeepening(startTime, endTime time.Time, maxD
 		}
 	}
 	search.running.Store(false)
+	if rootIsTerminal {
+		// UCI null move: there is nothing to play
+		fmt.Println("bestmove 0000")
+		return
+	}
 	printInfo(bestScore, depthCompleted, bestLine.moves, time.Since(startTime), "")
 	fmt.Println("bestmove", bestLine.moves[0])
 }
